@@ -243,7 +243,7 @@ def run_lines(exe, lines, timeout=3000, shards=None, args=None, retry=True):
     if retry:
         out = run_lines(exe, lines, timeout=timeout, shards=shards, args=args, retry=False)
         again = [i for i, o in enumerate(out) if o.startswith("timeout") and lines[i].split("|", 1)[0] in RETRY_KINDS]
-        if again and len(again) <= 8:
+        if again and len(again) <= 24:
             redo = run_lines(exe, [lines[i] for i in again], timeout=timeout, shards=1, args=args, retry=False)
             for i, r in zip(again, redo):
                 out[i] = r
